@@ -172,11 +172,22 @@ func (m *StoreMon) OnEvent(c *eng.Ctx, ms eng.MState, ev *eng.Event) eng.MState 
 	needWrite := func(what string) {
 		chk("C13.R1", "access", s.mode == 2, what+" without holding the write lock (mode "+modeName(s.mode)+"): readers can observe a partial update")
 	}
+	// the innermost loop the event happens in - in its own function or, when that function is a
+	// loop body handed to a helper (a callback, the body of a range-over-func), in a caller's
 	loopOf := func() string {
 		fi := c.E.InfoOf(ev.Fn)
 		if ev.Instr != nil && ev.Instr.Block() != nil {
 			if l := fi.LoopOf(ev.Instr.Block()); l != nil {
 				return eng.LoopID(ev.FrameCtx, l.Header)
+			}
+		}
+		for k := 1; k < c.St.Depth(); k++ {
+			fn, blk := c.St.FrameFn(k), c.St.FrameBlock(k)
+			if fn == nil || blk == nil {
+				break
+			}
+			if l := c.E.InfoOf(fn).LoopOf(blk); l != nil {
+				return eng.LoopID(c.St.FrameCtx(k), l.Header)
 			}
 		}
 		return ""
@@ -237,7 +248,9 @@ func (m *StoreMon) OnEvent(c *eng.Ctx, ms eng.MState, ev *eng.Event) eng.MState 
 		}
 	case "enter":
 		if ev.Callee != nil && ev.Callee.Signature.Recv() != nil && recvName(ev.Callee.Signature.Recv().Type()) == "SharedStore" {
-			chk("C13.R4", "nested-call", s.mode == 0, "another store method ("+ev.Callee.Name()+") is called while the lock is held (self-deadlock)")
+			// an unexported helper is part of the operation (if it locks, the lock event itself is
+			// reported); an exported method is another operation with its own critical section
+			chk("C13.R4", "nested-call", s.mode == 0 || !ev.Callee.Object().Exported(), "another store operation ("+ev.Callee.Name()+") is called while the lock is held (self-deadlock)")
 		}
 	case "load":
 		if ev.Addr == m.dataAddr() {
